@@ -26,7 +26,7 @@ from ural.lru import url_to_lru, lru_to_url, lru_stems, serialize_lru, unseriali
 # ---------------------------------------------------------------------------------------------- grammar
 SCHEMES = ("http", "https")
 USERINFOS = (None, "u", "u:pw", ":pw", "u:", "u:p:w")
-HOSTS = ("a.com", "www.a.co.uk", "co.uk", "A.Com", "WWW.B.Co.UK", "x.blogspot.com", "a.frcom", "intranet",
+HOSTS = ("a.com", "www.a.co.uk", "co.uk", "A.Com", "WWW.B.Co.UK", "x.blogspot.com", "a.frcom", "intranet", "a.com.", "WWW.B.Co.UK.",
          "localhost", "127.0.0.1", "[::1]", "[2001:4860:0:2001::68]", "[2001:db8::1]", "[fe80::a]")
 HOSTS_THOROUGH = HOSTS + ("b.ck", "xn--bcher-kva.de", "192.168.0.12", "[::ffff:1.2.3.4]", "[FE80::1]", "localhost.a.com")
 PORTS = (None, "80", "8080", "080", "0", "")   # the port is text: leading zeros, 0 and an empty port are kept as written
